@@ -190,7 +190,9 @@ def altsOf : PyTy → List PyTy
 def tyConv (bad : List PyTy) (nn : Bool) (a b : PyTy) : Bool :=
   PyTy.eqb a b ||
   (!(isBad bad b) && (match b with
-     | .union bs => (altsOf a).all (fun t => bs.any (PyTy.eqb t) || (nn && t.isNoneTy))
+     | .union bs =>
+       (altsOf a).all (fun t => bs.any (PyTy.eqb t) || (nn && t.isNoneTy)) &&
+       ((PyTy.optionalOf bs).isNone || !((altsOf a).any PyTy.isEnumTy))
      | _ => false)) ||
   (nn && (match a with
      | .union [t, .none] => PyTy.eqb t b && !t.isEnumTy
@@ -244,7 +246,7 @@ def inTy (bad : List PyTy) (T0 B : PyTy) : Bool :=
   PyTy.eqb T0 B || (!(isBad bad T0) && (match T0 with | .union ts => ts.any (PyTy.eqb B) | _ => false))
 
 def inUnion (bad : List PyTy) (T0 B : PyTy) : Bool :=
-  !(isBad bad T0) && (match T0 with | .union ts => ts.any (PyTy.eqb B) | _ => false)
+  !(isBad bad T0) && (match T0 with | .union ts => ts.any (PyTy.eqb B) && (PyTy.optionalOf ts).isNone | _ => false)
 
 def PyTy.isIntTy : PyTy → Bool
   | .int => true
